@@ -300,11 +300,32 @@ class Index:
         except AnalysisError:
             return None
 
-    def eval_const(self, modname, expr, env=None, _depth=0):
-        """Evaluate a constant expression (numbers, strings, containers, arithmetic, constant names)."""
+    def eval_const(self, modname, expr, env=None, _depth=0, cls=None):
+        """Evaluate a constant expression (numbers, strings, containers, arithmetic, constant names; with `cls` given also calls
+        of other constant methods of that class: cls.other(<constants>))."""
         if _depth > 20:
             raise AnalysisError("constant evaluation too deep")
-        ev = lambda e: self.eval_const(modname, e, env, _depth + 1)
+        ev = lambda e: self.eval_const(modname, e, env, _depth + 1, cls)
+        if cls is not None and isinstance(expr, ast.Call) and isinstance(expr.func, ast.Attribute) and isinstance(expr.func.value, ast.Name) \
+                and expr.func.value.id in ("cls", "self") and not expr.keywords:
+            args = []
+            for a in expr.args:
+                if isinstance(a, ast.Starred):
+                    args.extend(ev(a.value))
+                else:
+                    args.append(ev(a))
+            v = self.method_const(cls, expr.func.attr, args=args, _depth=_depth + 1)
+            if v is None:
+                raise AnalysisError("method %s is not constant" % expr.func.attr)
+            return v
+        if isinstance(expr, (ast.List, ast.Tuple)) and any(isinstance(e, ast.Starred) for e in expr.elts):
+            out = []
+            for e in expr.elts:
+                if isinstance(e, ast.Starred):
+                    out.extend(ev(e.value))
+                else:
+                    out.append(ev(e))
+            return out if isinstance(expr, ast.List) else tuple(out)
         if isinstance(expr, ast.Constant):
             return expr.value
         if isinstance(expr, ast.Name):
@@ -451,20 +472,31 @@ class Index:
         return [c for c in self.all_classes() if c.name != base_name and self.is_subclass(c, base_name)]
 
     # ------------------------------------------------------------------ components
-    def method_const(self, ci, name):
-        """Evaluate a classmethod of `ci` that returns a constant expression (table_name, sign, ...)."""
+    def method_const(self, ci, name, args=None, _depth=0):
+        """Evaluate a classmethod of `ci` that returns a constant expression (table_name, sign, ...); `args`: constant
+        arguments when the method is called by another constant method."""
         fi = self.lookup_method(ci, name)
-        if fi is None:
+        if fi is None or _depth > 12:
             return None
         rets = [n for n in ast.walk(fi.node) if isinstance(n, ast.Return)]
         if len(rets) != 1 or rets[0].value is None:
             return None
+        env0 = {}
+        a_ = fi.raw_node.args
+        pos = [x.arg for x in a_.posonlyargs + a_.args if x.arg not in ("cls", "self")]
+        if args is not None:
+            for pn, v in zip(pos, args):
+                env0[pn] = v
+            if a_.vararg is not None:
+                env0[a_.vararg.arg] = tuple(args[len(pos):])
+        elif a_.vararg is not None:
+            env0[a_.vararg.arg] = ()
         try:
-            return self.eval_const(fi.module, rets[0].value)
+            return self.eval_const(fi.module, rets[0].value, env0 or None, _depth, cls=ci)
         except AnalysisError:
             pass
         # a constant built in several statements: locals bound to constants, lists grown by append / extend / +=
-        env = {}
+        env = dict(env0)
         try:
             for st in fi.node.body:
                 if isinstance(st, ast.Expr) and isinstance(st.value, ast.Constant):
